@@ -125,9 +125,30 @@ def make_percent(rng, var_ok=True):
 PHRASES = ["plus", "minus", "of", "on", "off", "what", "ofwhat"]
 
 
+def long_lines(rng, tier):
+    """many occurrences of one phrase on a line (more than the language has rules): each one is rewritten"""
+    out = []
+    for k, tmpl in ((21, "of"), (25, "of-money"), (24, "on-off"), (30, "of"), (40, "on-off")) if tier == "quick" else \
+            [(k, t) for k in (20, 21, 22, 26, 33, 48, 64) for t in ("of", "of-money", "on-off")]:
+        terms, total = [], Fraction(0)
+        for i in range(1, k + 1):
+            if tmpl == "of":
+                terms.append("+ %d%% of 100" % i); total += i
+            elif tmpl == "of-money":
+                terms.append("+ %d%% of 100 usd" % i); total += i
+            elif i % 2:
+                terms.append("+ 10% on 200"); total += 220
+            else:
+                terms.append("- 10% off 100"); total -= 90
+        text = " ".join(terms)[2:]
+        out.append(exec_case(text, "en", kind="long-" + tmpl, nlines=1, expect=[total.numerator, total.denominator],
+                             mag=[abs(total).numerator + 1000, 1], typ="same", cur="USD" if tmpl == "of-money" else None))
+    return out
+
+
 def generate(rng, tier):
     n = 600 if tier == "quick" else 8000
-    cases, seen = [], set()
+    cases, seen = long_lines(rng, tier), set()
     while len(cases) < n:
         phrase = PHRASES[len(cases) % len(PHRASES)] if rng.random() < 0.8 else rng.choice(PHRASES)
         money = rng.random() < 0.45
@@ -174,12 +195,22 @@ def generate(rng, tier):
         lang = "tr" if rng.random() < 0.1 else "en"
         mag = max(mags + [abs(exp)])
         pre_ops, kind = [], phrase + ("-money" if x.code else "")
-        if "[" not in full and rng.random() < 0.25:
+        r = rng.random()
+        if "[" not in full and r < 0.25:
             # the same phrase written in the other convention (decimal '.', thousands ','): both percent spellings and
             # every literal are read through the configured separators
             full = full.translate(str.maketrans(",.", ".,"))
             pre_ops = [{"op": "set_dec", "v": "."}, {"op": "set_thou", "v": ","}]
             kind += "-dot"
+            if r < 0.1:
+                # ... and without any grouping: an EMPTY thousands separator (the configuration of the crate's execute_4)
+                full = full.replace(",", "")
+                pre_ops = [{"op": "set_dec", "v": "."}, {"op": "set_thou", "v": ""}]
+                kind += "-nogroup"
+        elif "[" not in full and r < 0.33:
+            full = full.replace(".", "")
+            pre_ops = [{"op": "set_thou", "v": ""}]
+            kind += "-nogroup"
         cases.append(exec_case(full, lang, pre=pre_ops, kind=kind, nlines=full.count("\n") + 1,
                                expect=[exp.numerator, exp.denominator], mag=[mag.numerator, mag.denominator],
                                typ=typ, cur=x.code))
